@@ -141,9 +141,14 @@ theorem C01_conservation (S : Settings) (s : St) (e : Ev) (d : Nat) :
     simp only [deliver, consumed]
     split
     · rename_i hc
+      have hp : (s.conn c).pend = 0 := by cases hcc : s.conn c <;> simp_all [Phase.isFree, Phase.pend]
       split
-      · by_cases h : d = c <;> simp [answers, Out.to, St.setConn, h, hc, Phase.pend]
-      · by_cases h : d = c <;> simp [answers, St.setConn, h, hc, Phase.pend]
+      · by_cases h : d = c
+        · subst h; rw [hp]; simp [answers, Out.to, St.setConn, Phase.pend]
+        · simp [answers, Out.to, St.setConn, h, Phase.pend]
+      · by_cases h : d = c
+        · subst h; rw [hp]; simp [answers, St.setConn, Phase.pend]
+        · simp [answers, St.setConn, h, Phase.pend]
     · simp [answers]
   | armWriteFault c => simp [deliver, consumed, answers]
   | leave c o =>
